@@ -22881,6 +22881,47 @@ pub mod bench {
 pub mod verif_hooks {
 	use super::*;
 	use bitcoin::hashes::Hash;
+	/// Calls the real (private) `ChannelManager::can_forward_htlc_should_intercept` on an HTLC /
+	/// next-hop pair built from plain integers.
+	pub fn can_forward_probe<
+		M: chain::Watch<SP::EcdsaSigner>,
+		T: BroadcasterInterface,
+		ES: EntropySource,
+		NS: NodeSigner,
+		SP: SignerProvider,
+		F: FeeEstimator,
+		R: Router,
+		MR: MessageRouter,
+		L: Logger,
+	>(
+		cm: &ChannelManager<M, T, ES, NS, SP, F, R, MR, L>, amount_msat: u64, cltv_expiry: u32,
+		outgoing_scid: u64, outgoing_amt_msat: u64, outgoing_cltv_value: u32, prev_chan_public: bool,
+	) -> Result<bool, LocalHTLCFailureReason> {
+		let msg = msgs::UpdateAddHTLC {
+			channel_id: ChannelId([0; 32]),
+			htlc_id: 0,
+			amount_msat,
+			payment_hash: PaymentHash([0; 32]),
+			cltv_expiry,
+			skimmed_fee_msat: None,
+			onion_routing_packet: msgs::OnionPacket {
+				version: 0,
+				public_key: Err(bitcoin::secp256k1::Error::InvalidPublicKey),
+				hop_data: [0; 20 * 65],
+				hmac: [0; 32],
+			},
+			blinding_point: None,
+			hold_htlc: None,
+			accountable: None,
+		};
+		let next_hop = NextPacketDetails {
+			next_packet_pubkey: Err(bitcoin::secp256k1::Error::InvalidPublicKey),
+			outgoing_connector: HopConnector::ShortChannelId(outgoing_scid),
+			outgoing_amt_msat,
+			outgoing_cltv_value,
+		};
+		cm.can_forward_htlc_should_intercept(&msg, prev_chan_public, &next_hop)
+	}
 	pub fn mpp_check_onchain_timeout(cltv_expiry: u32, height: u32) -> bool {
 		let part = MppPart {
 			prev_hop: HTLCPreviousHopData {
